@@ -222,6 +222,24 @@ def r2_format_taint(R) -> None:
 
 
 # ---------------------------------------------------------------------------
+def _is_name_of(f, nid: int, k: ast.AST, s_: str) -> bool:
+    """`k` (a local) was set to `<s_>.name`, and `s_` has since only been rebound to `s_._replace(...)` without `name=`
+    (a NamedTuple copy that keeps the name)."""
+    if not isinstance(k, ast.Name):
+        return False
+    vals = f.lf.values_reaching(nid, k.id)
+    if len(vals) != 1 or vals[0][1] is None or text(vals[0][1]) != f'{s_}.name':
+        return False
+    site = vals[0][0]
+    then, now = f.lf.defs_reaching(site, s_), f.lf.defs_reaching(nid, s_)
+    for d in now - then:
+        a_ = f.cfg.nodes[d].ast if d != PARAM else None
+        if not (isinstance(a_, ast.Assign) and len(a_.targets) == 1 and text(a_.targets[0]) == s_ and method_call(a_.value, '_replace')
+                and text(a_.value.func.value) == s_ and not a_.value.args and all(kw.arg not in (None, 'name') for kw in a_.value.keywords)):
+            return False
+    return True
+
+
 def _beliefs(R, f_escape: Escape):
     """Allowlisted sites: (predicate on Site) -> (reason, fact-check callable returning (ok, detail))."""
     fd = folder(R.repo, P)
@@ -355,15 +373,41 @@ def _beliefs(R, f_escape: Escape):
         return (True, 'two FUNCTION symbols of one name are built from the same (name, type, None, None) fields')
 
     def fact_same_name(site: Site):
-        pm_ok = True
+        """combine() is reached only as D.get(k, s).combine(s) or D[k].combine(s) with k = s.name, and every entry of D is
+        stored under its own name (so D[k].name == k by induction over the stores)."""
         for q in (f'{P}.parse_model', f'{P}.parse_equation'):
-            fi = R.repo.func(q)
-            for n in ast.walk(fi.node):
-                if method_call(n, 'combine'):
-                    recv = n.func.value
-                    if not (method_call(recv, 'get') and text(recv.args[0]) in ('name',) and text(recv.args[1]) == text(n.args[0])):
-                        pm_ok = False
-        return (pm_ok, 'combine() is only called as symbols.get(name, s).combine(s) with name = s.name')
+            f = Fn(R, q)
+            dicts = set()
+            for n in f.cfg.nodes:
+                if n.ast is None or n.kind not in ('stmt', 'test'):
+                    continue
+                for c in ast.walk(n.ast):
+                    if not method_call(c, 'combine'):
+                        continue
+                    if len(c.args) != 1:
+                        return (False, f'`{text(c)[:60]}` in {q.split(".")[-1]} is not a one-argument combine()')
+                    s_ = text(c.args[0])
+                    recv = c.func.value
+                    if method_call(recv, 'get') and len(recv.args) == 2 and text(recv.args[1]) == s_:
+                        d_, k_ = text(recv.func.value), recv.args[0]
+                    elif isinstance(recv, ast.Subscript):
+                        d_, k_ = text(recv.value), recv.slice
+                    else:
+                        return (False, f'`{text(c)[:60]}` in {q.split(".")[-1]}: the receiver is neither D.get(name, s) nor D[name]')
+                    if f.etext(n.id, k_, stop=(d_,)) != f'{s_}.name' and not _is_name_of(f, n.id, k_, s_):
+                        return (False, f'`{text(c)[:60]}` in {q.split(".")[-1]}: the key `{text(k_)}` is not `{s_}.name`')
+                    dicts.add(d_)
+            for d_ in dicts:
+                for n in f.cfg.nodes:
+                    a_ = n.ast
+                    if n.kind == 'stmt' and isinstance(a_, ast.Assign) and isinstance(a_.targets[0], ast.Subscript) and text(a_.targets[0].value) == d_:
+                        v_ = a_.value
+                        if any(method_call(x, 'combine') for x in ast.walk(v_)):
+                            continue    # checked above; combine() keeps the receiver's name
+                        ke = f.etext(n.id, a_.targets[0].slice, stop=(d_,))
+                        if ke != f'{f.etext(n.id, v_, stop=(d_,))}.name' and ke != f'{text(v_)}.name':
+                            return (False, f'`{text(a_)[:60]}` in {q.split(".")[-1]} stores a symbol under a key that is not its name')
+        return (True, 'combine() is only called on the entry stored under the argument\'s own name')
 
     def fact_parse_after_compile(site: Site):
         f = Fn(R, f'{P}.parse_model')
@@ -409,39 +453,69 @@ def _beliefs(R, f_escape: Escape):
             seq = f.expand(n.id, seq, depth=1, comps=True)
         if isinstance(seq, (ast.ListComp, ast.GeneratorExp)) and len(seq.generators) == 1 and not seq.generators[0].ifs:
             seq = seq.generators[0].iter
+        elif is_call(seq, 'map') and len(seq.args) == 2:
+            seq = seq.args[1]
         if not isinstance(seq, ast.Name):
             return (None, f'the argument sequence `{text(seq)[:60]}` is not a local list')
         X = seq.id
-        # where the receiver's fields come from: T = ''.join(P) (possibly re.sub()-normalised afterwards)
+        # where the receiver's fields come from: T = ''.join(P), or T built by `T += text + '{}'`; whitespace
+        # normalisation by re.sub() afterwards adds and removes no field
         recv = call.func.value
+        if not isinstance(recv, ast.Name):
+            return (None, f'the receiver `{text(recv)[:40]}` is not a local')
+        T = recv.id
         P_ = None
-        seen = 0
-        cur = f.expand(n.id, recv)
-        while seen < 8 and P_ is None:
-            seen += 1
-            if method_call(cur, 'join') and isinstance(cur.func.value, ast.Constant) and len(cur.args) == 1 and isinstance(cur.args[0], ast.Name):
-                P_ = cur.args[0].id
-            elif is_call(cur, 're.sub') and len(cur.args) >= 3:
-                cur = cur.args[2]
+        ph: List[Node] = []   # statements that each add one `{}` field
+        tx: List[Node] = []   # statements that add text only
+        for d in f.assigns_to(T):
+            v = d.ast.value if isinstance(d.ast, (ast.Assign, ast.AnnAssign, ast.AugAssign)) else None
+            if v is None:
+                return (None, f'`{text(d.ast)[:50]}` defines the receiver in a form not in the idiom table')
+            if isinstance(d.ast, ast.AugAssign):
+                if not isinstance(d.ast.op, ast.Add):
+                    return (None, f'`{text(d.ast)[:50]}` is not a concatenation')
+                ops = []
+                def flat(e):
+                    if isinstance(e, ast.BinOp) and isinstance(e.op, ast.Add):
+                        flat(e.left); flat(e.right)
+                    else:
+                        ops.append(e)
+                flat(v)
+                k_ = [o for o in ops if is_const(o, '{}')]
+                if any(isinstance(o, ast.Constant) and o not in k_ and isinstance(o.value, str) and ('{' in o.value or '}' in o.value) for o in ops) or len(k_) > 1:
+                    return (None, f'`{text(d.ast)[:50]}` adds fields in a form not in the idiom table')
+                (ph if k_ else tx).append(d)
+            elif is_call(v, 're.sub') and len(v.args) >= 3 and text(v.args[2]) == T and all(
+                    isinstance(a_, ast.Constant) and isinstance(a_.value, str) and not set('{}') & set(a_.value) for a_ in v.args[:2]):
+                continue
+            elif isinstance(v, ast.Constant) and isinstance(v.value, str) and not set('{}') & set(v.value):
+                continue
+            elif method_call(v, 'join') and isinstance(v.func.value, ast.Constant) and len(v.args) == 1 and isinstance(v.args[0], ast.Name) and P_ is None:
+                P_ = v.args[0].id
             else:
-                break
-        if P_ is None:
-            return (None, f'the receiver `{text(recv)}` is not a join of a list of pieces: `{text(cur)[:60]}`')
-        appends = f.nodes_with(lambda x: method_call(x, 'append') and text(x.func.value) == P_ and len(x.args) == 1)
-        others = [m for m in f.cfg.nodes if m.ast is not None and m.kind == 'stmt' and m not in appends and m.id != n.id
-                  and any(isinstance(x, ast.Name) and x.id == P_ and isinstance(x.ctx, (ast.Store, ast.Del)) for x in ast.walk(m.ast))
-                  and not (isinstance(m.ast, (ast.Assign, ast.AnnAssign)) and isinstance(m.ast.value, ast.List) and not m.ast.value.elts)]
-        ph = [a for a in appends if any(method_call(x, 'append') and is_const(x.args[0], '{}') for x in ast.walk(a.ast))]
-        tx = [a for a in appends if a not in ph]
-        if others or not ph:
-            return (None, f'`{P_}` is not built by append() of text and `{{}}` pieces only')
+                return (None, f'`{text(d.ast)[:50]}` defines the receiver in a form not in the idiom table')
+        if P_ is not None:
+            if ph or tx:
+                return (None, f'`{T}` is both joined from `{P_}` and concatenated to')
+            appends = f.nodes_with(lambda x: method_call(x, 'append') and text(x.func.value) == P_ and len(x.args) == 1)
+            others = [m for m in f.cfg.nodes if m.ast is not None and m.kind == 'stmt' and m not in appends and m.id != n.id
+                      and any(isinstance(x, ast.Name) and x.id == P_ and isinstance(x.ctx, (ast.Store, ast.Del)) for x in ast.walk(m.ast))
+                      and not (isinstance(m.ast, (ast.Assign, ast.AnnAssign)) and isinstance(m.ast.value, ast.List) and not m.ast.value.elts)]
+            ph = [a for a in appends if any(method_call(x, 'append') and is_const(x.args[0], '{}') for x in ast.walk(a.ast))]
+            tx = [a for a in appends if a not in ph]
+            if others:
+                return (None, f'`{P_}` is not built by append() of text and `{{}}` pieces only')
+        if not ph:
+            return (None, f'no statement adding a `{{}}` field to `{T}` was found')
         in_loop = lambda a: bool(a.loops)
+        built = P_ or T
         # the counting expressions this rule can read
         def counts_fields(e: ast.AST, at: int) -> Optional[str]:
-            e = f.expand(at, e, stop=(P_, X))
-            if method_call(e, 'count') and text(e.func.value) == P_ and len(e.args) == 1 and is_const(e.args[0], '{}'):
+            e = f.expand(at, e, stop=(built, X))
+            if P_ is not None and method_call(e, 'count') and text(e.func.value) == P_ and len(e.args) == 1 and is_const(e.args[0], '{}'):
                 return f"{P_}.count('{{}}') (text pieces are brace-escaped: none equals '{{}}')"
-            if isinstance(e, ast.BinOp) and isinstance(e.op, ast.FloorDiv) and is_const(e.right, 2) and is_call(e.left, 'len') and text(e.left.args[0]) == P_:
+            if P_ is not None and isinstance(e, ast.BinOp) and isinstance(e.op, ast.FloorDiv) and is_const(e.right, 2) and is_call(e.left, 'len') \
+                    and text(e.left.args[0]) == P_:
                 # alternating text / field pieces plus one trailing text piece
                 lp = [a for a in ph + tx if in_loop(a)]
                 out_tx = [a for a in tx if not in_loop(a)]
@@ -455,7 +529,7 @@ def _beliefs(R, f_escape: Escape):
                 if incs and len(incs) == len(ph) and all(isinstance(m.ast.op, ast.Add) and is_const(m.ast.value, 1) for m in incs) \
                         and len(inits) == 1 and is_const(inits[0].ast.value, 0) \
                         and {tuple(sorted(f.guards_of(m.id))) for m in incs} == {tuple(sorted(f.guards_of(a.id))) for a in ph}:
-                    return f'`{e.id}` counts the appended fields'
+                    return f'`{e.id}` counts the fields added to `{built}`'
             return None
 
         related = []
@@ -469,8 +543,8 @@ def _beliefs(R, f_escape: Escape):
         if not related:
             vals = f.lf.values_reaching(n.id, X)
             origin = vals[0][1] if len(vals) == 1 and vals[0][1] is not None else ast.Name(id=X, ctx=ast.Load())
-            if isinstance(origin, ast.Call) and not any(isinstance(x, ast.Name) and x.id == P_ for x in ast.walk(origin)):
-                return (False, f'`{text(recv)}` has one `{{}}` per term of the whole statement (pieces `{P_}`), the arguments are one per element of '
+            if isinstance(origin, ast.Call) and not any(isinstance(x, ast.Name) and x.id == built for x in ast.walk(origin)):
+                return (False, f'`{text(recv)}` has one `{{}}` per term of the whole statement (built in `{built}`), the arguments are one per element of '
                                f'`{X} = {text(origin)[:50]}` (a separate tokenisation), and no guard before the call relates the two counts')
             return (None, f'no guard relates len({X}) to the fields of `{text(recv)}` and the origin of `{X}` is not recognised')
         for (a, truth, tn, other) in related:
